@@ -125,6 +125,8 @@ the combination of pattern and replacement template cannot cause this.
             pattern,
             repl,
             nested=args.nested,
+            count=args.count,
+            loop=args.loop,
             callback=lambda f: on_match(args, f, fnm),  # noqa: B023
             callback_after=lambda f: print_sub(args, f),
             ctx=args.ctx,
